@@ -148,6 +148,54 @@ def f_spec_bic_accept(a):
         return "0"
 
 
+def _outcome(f):
+    try:
+        o = f()
+        return ("OK", str(o), o)
+    except Exception as e:  # noqa: BLE001
+        return (canon_exc(e), None, None)
+
+
+def f_spec_variant_same(a):
+    t1, t2 = dec(a[0]), dec(a[1])
+    for mk in (lambda t: IBAN(t), lambda t: IBAN(t, allow_invalid=True), lambda t: BIC(t), lambda t: BIC(t, allow_invalid=True)):
+        o1, o2 = _outcome(lambda: mk(t1)), _outcome(lambda: mk(t2))
+        if o1[:2] != o2[:2]:
+            return "DIFF"
+        if o1[2] is not None and not (o1[2] == o2[2] and hash(o1[2]) == hash(o2[2]) and o1[2].compact == o2[2].compact):
+            return "DIFF"
+    return "SAME"
+
+
+def f_iban_formatted_rt(a):
+    o = IBAN(dec(a[0]), allow_invalid=True)
+    f = o.formatted
+    back = IBAN(f, allow_invalid=True)
+    return enc(f) + "|RT" + eb(back == o and str(back) == str(o) and IBAN(o.compact, allow_invalid=True) == o)
+
+
+def f_bic_formatted_rt(a):
+    o = BIC(dec(a[0]), allow_invalid=True)
+    f = o.formatted
+    back = BIC(f, allow_invalid=True)
+    return enc(f) + "|RT" + eb(back == o and str(back) == str(o))
+
+
+def f_iban_decomp(a):
+    o = IBAN(dec(a[0]), allow_invalid=True)
+    names = decl(a[1])
+    parts = [enc(o.country_code), enc(o.checksum_digits), enc(str(o.bban))]
+    for n in names:
+        def both(n=n):
+            x, y = getattr(o, n), getattr(o.bban, n)
+            if x != y:
+                raise AssertionError("IBAN/BBAN accessor disagree")
+            return enc(x)
+        parts.append(guard(both))
+    parts.append(guard(lambda: enc(str(IBAN.from_bban(o.country_code, o.bban, allow_invalid=True)))))
+    return " / ".join(parts)
+
+
 # property oracles: the implementation side of a spec comparison
 def _verdict(make, make_unvalidated):
     """ACCEPT | <schwifty class> | CRASH <cls> | INCONSISTENT <what>  (constructor, validate(), is_valid)"""
